@@ -2,6 +2,7 @@ package node
 
 import (
 	"fmt"
+	"unicode/utf8"
 
 	"github.com/freeconf/yang/meta"
 	"github.com/freeconf/yang/val"
@@ -88,7 +89,7 @@ func (fieldConstraints) lenCheck(s string, lengths []*meta.Range) error {
 	}
 	// one entry per level of the typedef chain: every level has to accept
 	for _, length := range lengths {
-		if err := length.CheckValue(val.Int32(len(s))); err != nil {
+		if err := length.CheckValue(val.Int32(utf8.RuneCountInString(s))); err != nil {
 			return fmt.Errorf("string length outside allowed ranges. %s", s)
 		}
 	}
